@@ -625,7 +625,7 @@ def _run(ctx: Ctx, rng, quick: bool, wpool: 'R.Pool') -> None:
     for m in mpool:
         ctx.count('pool:' + m.origin)
     regs = registries()
-    ndeliv = int(os.environ.get('VERIF_C19_JOBS', '72' if quick else '1300'))
+    ndeliv = int(os.environ.get('VERIF_C19_JOBS', '72' if quick else '900'))
     deliveries = gen_deliveries(rng, mpool, ndeliv)
     for k in range(len(deliveries)):
         length = rng.randrange(20, 70) if quick else rng.choice([rng.randrange(20, 80), rng.randrange(80, 200), rng.randrange(200, 400)])
@@ -639,7 +639,7 @@ def _run(ctx: Ctx, rng, quick: bool, wpool: 'R.Pool') -> None:
     ctx.count('jobs:submitted', run.next_id)
 
     reserve = 14 if quick else 150  # for the model and for shrinking
-    wpool.wait(None, timeout=max(5.0, ctx.time_left() - reserve))
+    wpool.wait(None, timeout=max(5.0, min(ctx.time_left() - reserve, 60.0 if quick else 520.0)))
     wpool.drop_pending()
     wpool.wait(None, timeout=30.0)  # the interpreters in flight
     ctx.count('jobs:done-in-time', sum(1 for r in wpool.results.values() if not r.get('skipped')))
